@@ -150,7 +150,7 @@ Proof.
         destruct Htyped as [Ety Enu].
         destruct df as [vf| |ef].
         -- inversion Hr; subst. destruct vf as [x|]; simpl.
-           ++ unfold p_compat, compat. rewrite Ety. destruct (is_int x); simpl; [apply IH, Htl|].
+           ++ unfold p_compat, compat. rewrite Ety. destruct (accepts (p_ty p) x); simpl; [apply IH, Htl|].
               unfold relA; simpl; eauto.
            ++ unfold p_compat, compat. rewrite Ety, Enu. simpl. unfold relA; simpl; auto.
         -- destruct Hr as [Hr1 Hr2]; subst. simpl. unfold relA; simpl. auto.
